@@ -135,3 +135,31 @@ func H_C19_attrs(n int) {
 	verifAssert(seen == 0, "C19: request attributes of one request are visible to another")
 	verifCover("served")
 }
+
+// family 3: filter chains. The chain of one request must not be built in, or
+// leave anything behind in, state shared with other requests.
+func H_C19_chain(nc, ns, nr int) {
+	k := &vChain{panicAt: -1, expAttr: map[string]int{}}
+	c := vChainContainer(k, nc, ns, nr, -1)
+	for _, f := range k.filts {
+		f.replace = false
+	}
+	fp := verifFingerprint(c)
+	var first string
+	for i := 0; i < 2; i++ {
+		k.log, k.curReq, k.curResp, k.wrong = nil, nil, nil, false
+		k.expAttr = map[string]int{}
+		rec := vNewRec()
+		if i == 0 {
+			verifFrameBegin("dispatch", k)
+		}
+		c.Dispatch(rec, vReq{method: "GET", path: "/t/a"}.http())
+		if i == 0 {
+			verifFrameEnd()
+			first = vLogString(k.log)
+		}
+	}
+	verifAssert(verifFingerprint(c) == fp, "native: C19: serving a request changed configuration state")
+	verifAssert(vLogString(k.log) == first && !k.wrong, "C19: the same request runs a different filter chain the second time")
+	verifCover("served")
+}
